@@ -224,6 +224,21 @@ impl Proc {
         self.send(&json!({"jsonrpc":"2.0","id": id, "method":"htlc_accepted","params": req})).await
     }
 
+    /// like send_htlc, but the bytes reach the plugin in two writes (cut = 1: between the two newlines)
+    pub async fn send_htlc_cut(&mut self, id: Value, req: &Value, cut: u16) -> bool {
+        if cut == 0 {
+            return self.send_htlc(id, req).await;
+        }
+        let s = json!({"jsonrpc":"2.0","id": id, "method":"htlc_accepted","params": req}).to_string() + "\n\n";
+        let b = s.as_bytes();
+        let at = if cut == 1 { b.len() - 1 } else { (cut as usize).min(b.len() - 1) };
+        if self.stdin.write_all(&b[..at]).await.is_err() || self.stdin.flush().await.is_err() {
+            return false;
+        }
+        tokio::time::sleep(Duration::from_millis(15)).await;
+        self.stdin.write_all(&b[at..]).await.is_ok() && self.stdin.flush().await.is_ok()
+    }
+
     pub async fn send_block(&mut self, height: u32) -> bool {
         self.send(&json!({"jsonrpc":"2.0","method":"block_added","params":{"block_added":{"hash":"00".repeat(32),"height":height}}})).await
     }
@@ -271,6 +286,9 @@ pub fn default_options() -> Map<String, Value> {
 pub struct Batch {
     pub scn: Scenario,
     pub log_trace: bool,
+    /// write each request in two pieces: 0 = whole, 1 = cut between the two newlines of the separator, n>1 = cut after n bytes
+    #[serde(default)]
+    pub cut: u16,
 }
 
 fn batch_scenario(nontramp_only: bool) -> impl Strategy<Value = Batch> {
@@ -279,10 +297,11 @@ fn batch_scenario(nontramp_only: bool) -> impl Strategy<Value = Batch> {
     } else {
         Profile { w_raw_payload: 45, w_nontramp: 15, w_reject: 10, w_hash_mismatch: 5, max_parts: 6, max_payments: 3, steps: 0..1, crashes: false, write_faults: false, heights: false, w_under: 40, raw_bytes: true, mpp_choices: &[1], ..Profile::default() }
     };
-    (scenario_strategy(prof), any::<bool>()).prop_map(|(mut scn, log_trace)| {
+    (scenario_strategy(prof), any::<bool>(), prop_oneof![2 => Just(0u16), 2 => Just(1u16), 1 => 2u16..400]).prop_map(|(mut scn, log_trace, cut)| {
         scn.steps.clear();
+        scn.hold.clear();
         scn.cfg = Cfg { mpp_timeout_s: 1, ..Cfg::default() };
-        Batch { scn, log_trace }
+        Batch { scn, log_trace, cut }
     })
 }
 
@@ -304,7 +323,7 @@ fn run_batch(b: &Batch, prop: &'static str) -> CaseReport {
         };
         let n = scn.htlcs.len();
         for i in 0..n {
-            if !p.send_htlc(json!(format!("h{i}")), &scn.render(i)).await {
+            if !p.send_htlc_cut(json!(format!("h{i}")), &scn.render(i), b.cut).await {
                 break;
             }
         }
@@ -318,6 +337,28 @@ fn run_batch(b: &Batch, prop: &'static str) -> CaseReport {
             tokio::time::sleep(Duration::from_millis(20)).await;
         }
         tokio::time::sleep(Duration::from_millis(50)).await;
+        // replies missing without a panic: is the plugin alive and answering other requests at once?
+        let missing = (0..n).filter(|i| p.reply(&json!(format!("h{i}"))).is_none()).count();
+        let mut alive = false;
+        let mut exited_late = false;
+        let exited = matches!(p.child.try_wait(), Ok(Some(_)));
+        if missing > 0 && exited && p.panicked().is_none() {
+            let d = format!("the plugin process exited with {missing} htlc_accepted calls unanswered (stdin still open); stderr: {}", p.err.lock().unwrap().chars().take(200).collect::<String>());
+            rep.violations.push(Violation::new("C06", "plugin_exited_with_unanswered_requests", d.clone()));
+            rep.violations.push(Violation::new("C17", "plugin_exited_with_unanswered_requests", d));
+        }
+        if missing > 0 && !exited && p.panicked().is_none() {
+            let ping = json!({"onion": {"payload": "", "short_channel_id": "1x1x1", "forward_msat": 1}, "htlc": {"short_channel_id": "1x1x1", "id": 999999, "amount_msat": 1, "cltv_expiry": 10, "cltv_expiry_relative": 5, "payment_hash": "00".repeat(32)}});
+            p.send_htlc(json!("ping"), &ping).await;
+            alive = p.wait_reply(&json!("ping"), 3000).await.is_some();
+            if !alive && matches!(p.child.try_wait(), Ok(Some(_))) && p.panicked().is_none() {
+                // a well-formed request made the process exit (stdin is still open)
+                exited_late = true;
+                let d = format!("the plugin process exited after a further well-formed request, leaving {missing} htlc_accepted calls unanswered; stderr: {}", p.err.lock().unwrap().chars().take(200).collect::<String>());
+                rep.violations.push(Violation::new("C06", "plugin_exited_with_unanswered_requests", d.clone()));
+                rep.violations.push(Violation::new("C17", "plugin_exited_with_unanswered_requests", d));
+            }
+        }
         if let Some(msg) = p.panicked() {
             rep.violations.push(Violation::new("C06", "panic_in_binary", format!("stderr of the plugin: {msg}")).with_sig(json!({"kind":"panic_in_binary"})));
         }
@@ -350,7 +391,15 @@ fn run_batch(b: &Batch, prop: &'static str) -> CaseReport {
             }
             match rs.first() {
                 None => {
-                    if p.panicked().is_none() {
+                    if exited || exited_late {
+                        // reported once above
+                    } else if p.panicked().is_none() && alive {
+                        // >= 12 s after delivery with a 1 s MPP timeout and a pay that fails at once, while a request sent
+                        // *afterwards* is answered immediately: the call is not slow, it is lost
+                        let d = format!("request h{i} never answered although the plugin answers a later request at once (12 s after delivery; MPP timeout 1 s)");
+                        rep.violations.push(Violation::new("C06", "no_reply_while_plugin_alive", d.clone()));
+                        rep.violations.push(Violation::new("C17", "no_reply_while_plugin_alive", d));
+                    } else if p.panicked().is_none() {
                         rep.inconclusive = true;
                         rep.classes.push("reply_missing_without_panic(inconclusive)".into());
                     } else {
